@@ -388,7 +388,12 @@ type HAMTDirectory struct {
 	mtime         time.Time
 
 	// Track the changes in size by the AddChild and RemoveChild calls
-	// for the HAMTShardingSize option.
+	// for the HAMTShardingSize option, in the units of the size estimation
+	// mode. The value is relative to the smallest size that stays sharded
+	// (one above the threshold) where that size is known, and to the size of
+	// the directory when it was loaded otherwise (a loaded HAMTDirectory is
+	// assumed to be above the threshold): needsToSwitchToBasicDir enumerates
+	// the directory to learn its real size only while sizeChange is negative.
 	sizeChange int
 	totalLinks int
 
@@ -1032,9 +1037,13 @@ func (d *HAMTDirectory) AddChild(ctx context.Context, name string, nd ipld.Node)
 	}
 
 	if oldChild != nil {
-		d.removeFromSizeChange(oldChild.Name, oldChild.Cid)
+		d.sizeChange -= d.linkSizeFor(namedLink(name, oldChild))
 	}
-	d.addToSizeChange(name, nd.Cid())
+	newLink, err := ipld.MakeLink(nd)
+	if err != nil {
+		return err
+	}
+	d.sizeChange += d.linkSizeFor(namedLink(name, newLink))
 	if oldChild == nil {
 		d.totalLinks++
 	}
@@ -1075,7 +1084,7 @@ func (d *HAMTDirectory) RemoveChild(ctx context.Context, name string) error {
 	}
 
 	if oldChild != nil {
-		d.removeFromSizeChange(oldChild.Name, oldChild.Cid)
+		d.sizeChange -= d.linkSizeFor(namedLink(name, oldChild))
 		d.totalLinks--
 	}
 
@@ -1121,12 +1130,11 @@ func (d *HAMTDirectory) switchToBasic(ctx context.Context, opts ...DirectoryOpti
 	return basicDir, nil
 }
 
-func (d *HAMTDirectory) addToSizeChange(name string, linkCid cid.Cid) {
-	d.sizeChange += linksize.LinkSizeFunction(name, linkCid)
-}
-
-func (d *HAMTDirectory) removeFromSizeChange(name string, linkCid cid.Cid) {
-	d.sizeChange -= linksize.LinkSizeFunction(name, linkCid)
+// namedLink returns a copy of a link taken out of the shard (or made from a
+// node) under the entry's own name: the shard keeps its links under the name
+// with the hex prefix of their slot, which is not part of the entry.
+func namedLink(name string, lnk *ipld.Link) *ipld.Link {
+	return &ipld.Link{Name: name, Size: lnk.Size, Cid: lnk.Cid}
 }
 
 // Evaluate a switch from HAMTDirectory to BasicDirectory in case the size will
@@ -1175,6 +1183,10 @@ func (d *HAMTDirectory) needsToSwitchToBasicDir(ctx context.Context, name string
 		// With SizeEstimationDisabled, we only switch back to BasicDirectory
 		// if explicitly allowed by maxLinks (which must be set)
 		return canSwitchMaxLinks && d.maxLinks > 0 && newTotalLinks <= d.maxLinks, nil
+	}
+	if !canSwitchMaxLinks {
+		// No need to look at the size (which may mean enumerating the directory).
+		return false, nil
 	}
 
 	operationSizeChange := 0
@@ -1391,6 +1403,12 @@ func (d *DynamicDirectory) AddChild(ctx context.Context, name string, nd ipld.No
 	}
 	// Propagate per-directory HAMT sharding size (not a DirectoryOption)
 	hamtDir.SetHAMTShardingSize(basicDir.GetHAMTShardingSize())
+	// The entries moved over from the BasicDirectory are at or below the
+	// threshold (the one being added takes them above it, unless MaxLinks is the
+	// reason for the switch): see HAMTDirectory.sizeChange.
+	if hamtDir.GetSizeEstimationMode() != SizeEstimationDisabled {
+		hamtDir.sizeChange = basicDir.estimatedSize - (basicDir.getEffectiveShardingSize() + 1)
+	}
 	err = hamtDir.AddChild(ctx, name, nd)
 	if err != nil {
 		return err
